@@ -7,8 +7,9 @@ COQ_TARGETS = ['Props/Properties_C16.vo']
 PROPS_FILES = ['Props/Properties_C16.v']
 THEOREMS = ['C16_finddomain', 'C16_fd_entries', 'C16_finddomain_property', 'C16_finddomain_orig_overread', 'C16_matchdomain',
             'C16_ip4_matchnet', 'C16_ip6_matchnet', 'C16_ipbl4', 'C16_ipbl6', 'C16_ipbl_bad_size', 'C16_ipbl_records',
-            'C16_ipbl_orig_lazy', 'C16_loadlist', 'C16_line_entry_cases', 'C16_loadint', 'C16_loadint_orig_silent']
-OPS = ('fd', 'ff', 'ad', 'a4', 'a6', 'b4', 'b6', 'bf', 'c0', 'c1', 'c2', 'c3', 'c4', 'c5', 'c6')
+            'C16_ipbl_orig_lazy', 'C16_loadlist', 'C16_lloadfile_raw', 'C16_lloadfile_mode1', 'C16_lloadfile_mode2', 'C16_lloadfile_mode3',
+            'C16_loadoneliner', 'C16_compact_buffer', 'C16_loadlist_arr', 'C16_list_block_read', 'C16_line_entry_cases', 'C16_loadint', 'C16_loadint_orig_silent']
+OPS = ('fd', 'ff', 'ad', 'a4', 'a6', 'b4', 'b6', 'bf', 'c0', 'c1', 'c2', 'c3', 'c4', 'c5', 'c6', 'c7')
 ENGINES = [dict(name='control', c_sources=['control_h.c'], extract='Extract/Extract_control.v', driver='control_driver.ml',
                 accepts=lambda c: c.split(' ', 1)[0] in OPS)]
 RULE = ('cases = (a) domain lists over the alphabet {name characters, dot, blank, tab, #, backslash, LF, CR, NUL, 8-bit} with 0-8 lines, '
@@ -31,7 +32,7 @@ TRUSTED_BASE = [
     'striptab modes, word size, prefix bounds and digit bounds in coq/Gen/GenControl.v and test the presence of the statements the models '
     'transcribe (bounded newline skip, validation loop before matching loop, single-line/ERANGE tests of loadintfd, ...)',
     'hand-written models coq/Model/FindDomain.v, MatchNet.v, LoadFile.v tied to the C by the correspondence run (differential testing, bounded by the generator); '
-    'compact_buffer (in-place memmove) and data_array (realloc + pointer table) are modelled by their functional result',
+    'compact_buffer / data_array / the loadlistfd loops are modelled literally over byte arrays in Model/LoadListArr.v (pointer table kept beside the byte image as offsets); the functional LoadFile.v versions are proved equal',
     'sizeof(struct in_addr) = 4, sizeof(struct in6_addr) = 16, little-endian host: typed into the model, _Static_assert in the harness',
     'glibc memchr / strncasecmp / strcasecmp / strtoul / strlen in the C locale as modelled (ASCII case folding; strtoul on a digit-led string: all digits consumed, ERANGE above 2^64-1)',
     'extraction with ExtrOcamlBasic only; ocaml/glue.ml + ocaml/control_driver.ml hex parsing/printing (decimal printing of N by the driver)',
@@ -43,8 +44,8 @@ ASSUMPTIONS = [
     'open/flock/fstat/mmap/read/malloc/realloc succeed; their error paths (ENOLCK, ENOMEM, EISDIR, short reads) are outside the model',
     'the query name is a C string (no NUL); for the reading "equals an entry or ends with a dot-led entry" the name does not itself start with a dot',
     'address bytes are octets (< 256); prefix argument of ip4_matchnet <= 32, of ip6_matchnet <= 128 (larger values are UB in the C; check_ipbl_file never passes them: proved)',
-    'loadlistfd is modelled without a check callback (cf = NULL); the callback path (rejected entries) belongs to C20',
-    'lloadfilefd modes 0, 1, 2 and loadonelinerfd are covered by the correspondence run only',
+    'the check callback of loadlistfd is a pure function of the entry text (Section variable cf : bytes -> bool; NULL = fun _ => false)',
+    'file sizes are nat in the model, size_t in the C: contents of 2^31 octets and more are outside what was run',
 ]
 
 
@@ -258,6 +259,15 @@ def gen_cases(engine, rng, tier):
         out.append('%s %s' % (rng.choice(['c4', 'c4', 'c4', 'c3', 'c3', 'c2', 'c1', 'c0', 'c6']), R.hx(_txt_file(rng))))
     for _ in range(300 * mult):
         out.append('c5 %s' % R.hx(_int_file(rng)))
+    for _ in range(400 * mult):
+        c = _txt_file(rng)
+        k = rng.random()
+        if k < 0.2: rej = b''
+        else:
+            firsts = [l[:1] for l in c.replace(b'\0', b'\n').split(b'\n') if l[:1] and l[:1] not in b' \t#']
+            rej = b''.join(rng.choice(firsts) if firsts and rng.random() < 0.6 else bytes([rng.choice([1, 2, 3, 5, 9, 97, 65, 48])])
+                           for _ in range(rng.choice([1, 1, 2, 3])))
+        out.append('c7 %s %s' % (R.hx(c), R.hx(rej)))
     return out
 
 
